@@ -12,7 +12,7 @@ MANIFEST = dict(
          "a panicking subscribe function = its delivered prefix, then Error(observable(p)), then Unsubscribe (subscribe_fn_panic); an error return is forwarded unwrapped (error_return); Unsubscribe runs every finalizer and re-raises exactly the joined panics. "
          "F: every go statement of the regenerated catalogue that calls user code is recovered (no exception since fix 8bf73dd); subscription.Add unlocks by defer (decide over regenerated tables). K: fault injection at every callback position x invocation index <= 3 x {panic(error), panic(value), error return}, "
          "singly and in pairs, for 23 operators x variants x scripts x {sync, hot}, all result fields equal on both sides, plus child-process runs for library goroutines. "
-         "Partial: six deviation classes of the pinned tree are witness theorems + known findings (final observer stays open after its onNext panics; Error/Complete-position callbacks; Future's factory panic reaches only the unhandled hook (its bare goroutine was repaired by 8bf73dd); "
+         "Partial: five deviation classes of the pinned tree are witness theorems + known findings (final observer stays open after its onNext panics; Error/Complete-position callbacks; (Future, formerly listed, is repaired by 8bf73dd + 34cf01a and is now the theorem future_factory_panic); "
          "teardown panics re-raised into the producer / dropped; subscriberImpl.NextWithContext without deferred unlock). Not covered: Share/subject scenarios (iv, subject half of v), multi-source operators.",
     technique="Lean 4 proof (simulation of the fault interpreter by runOp of an injected machine, invariants over the interpreter, decide over the regenerated go-statement table) + differential correspondence with fault injection",
     ref='5/C07')
